@@ -186,6 +186,7 @@ func runPrograms(args []string) int {
 	perturbSeed := fs.Int64("perturb", 0, "if non-zero: yield/sleep randomly at the verif gates (seed)")
 	conc := fs.Int("conc", 1, "programs executed concurrently")
 	events := fs.String("events", "", "write the FID table event log here (ndjson)")
+	npevents := fs.String("npevents", "", "write the event log of the global named-pipe registry (names a, b, c) here (ndjson)")
 	fs.Parse(args)
 	cases, err := readNDJSON[progCase](*in)
 	if err != nil {
@@ -211,6 +212,41 @@ func runPrograms(args []string) int {
 		fidLog.on = true
 		fidLog.rootOf = map[int64]int64{}
 		hooks.Emit = fidEmit
+	}
+	var npMu sync.Mutex
+	var npLog []npEvent
+	if *npevents != "" {
+		prev := hooks.Emit
+		hooks.Emit = func(obj any, ev string, s string, n []int64) {
+			if strings.HasPrefix(ev, "np.") {
+				if obj == any(&lang.GlobalPipes) && (s == "a" || s == "b" || s == "c") {
+					e := npEvent{Ev: ev, Name: s}
+					if len(n) > 0 {
+						e.Ok = int(n[0])
+					}
+					npMu.Lock()
+					npLog = append(npLog, e)
+					npMu.Unlock()
+				}
+				return
+			}
+			if prev != nil {
+				prev(obj, ev, s, n)
+			}
+		}
+		defer func() {
+			time.Sleep(2600 * time.Millisecond) // let the close timers of the last programs fire
+			w, err := newNDWriter(*npevents)
+			if err == nil {
+				w.Write(npEvent{Ev: "reset"})
+				npMu.Lock()
+				for _, e := range npLog {
+					w.Write(e)
+				}
+				npMu.Unlock()
+				w.Close()
+			}
+		}()
 	}
 	if *perturbSeed != 0 {
 		var mu sync.Mutex
